@@ -9,7 +9,7 @@ import (
 )
 
 func init() {
-	for _, f := range []func() scen.Spec{scen.Core, scen.Basket, scen.Market, scen.BridgeSpec, scen.Large, scen.Expiry, scen.GovPool, scen.BasketLarge, scen.BasketMarket, scen.SparseGenesis, scen.OddGenesis, scen.Mixed, scen.ExpiryMany} {
+	for _, f := range []func() scen.Spec{scen.Core, scen.Basket, scen.Market, scen.BridgeSpec, scen.Large, scen.Expiry, scen.GovPool, scen.BasketLarge, scen.BasketMarket, scen.SparseGenesis, scen.OddGenesis, scen.Mixed, scen.ExpiryMany, scen.OddBasketGenesis, scen.ShortEscrowGenesis} {
 		regSpec(f)
 	}
 	shared := func() []scen.Spec {
@@ -22,7 +22,7 @@ func init() {
 			budget(tier, 200*time.Second, 15*time.Minute))
 	}
 	Registry["C02"] = func(tier string) int {
-		return engineA("C02", tier, append([]scen.Spec{scen.OddGenesis()}, shared()...),
+		return engineA("C02", tier, append([]scen.Spec{scen.OddGenesis(), scen.Large()}, shared()...),
 			func() []explore.Monitor { return []explore.Monitor{&mon.C02{}} },
 			budget(tier, 200*time.Second, 15*time.Minute))
 	}
@@ -34,12 +34,12 @@ func init() {
 			budget(tier, 200*time.Second, 15*time.Minute))
 	}
 	Registry["C04"] = func(tier string) int {
-		return engineA("C04", tier, shared(),
+		return engineA("C04", tier, append([]scen.Spec{scen.Large()}, shared()...),
 			func() []explore.Monitor { return []explore.Monitor{&mon.C04{}} },
 			budget(tier, 200*time.Second, 15*time.Minute))
 	}
 	Registry["C05"] = func(tier string) int {
-		return engineA("C05", tier, []scen.Spec{scen.SparseGenesis(), scen.BasketMarket(), scen.Basket(), scen.BasketLarge(), scen.Mixed()},
+		return engineA("C05", tier, []scen.Spec{scen.SparseGenesis(), scen.OddBasketGenesis(), scen.BasketMarket(), scen.Basket(), scen.BasketLarge(), scen.Mixed()},
 			func() []explore.Monitor { return []explore.Monitor{&mon.C05{}} },
 			budget(tier, 150*time.Second, 12*time.Minute))
 	}
